@@ -36,7 +36,7 @@ def ok_return_blocks(fn, ev):
         if bl.idx not in fn.reachable():
             continue
         for i, st in enumerate(bl.stmts):
-            if st["k"] == "assign" and st["dst"]["l"] == 0 and not st["dst"].get("p") and st["rv"]["k"] == "agg" and st["rv"].get("vname") == "Ok":
+            if fn.is_return_assign(st, "Ok"):
                 out.append((bl.idx, i, ev.rvalue(st["rv"], (bl.idx, i))))
     return out
 
@@ -105,6 +105,8 @@ def run(ctx):
     if len(calls) != 1:
         raise AnchorMissing("one nonce_from_request call in collect_requests")
     a = cev.call_args(calls[0])
+    if len(a) != 3:
+        raise AnchorMissing("nonce_from_request(buf, num_bytes, expected_srv): the call in collect_requests passes %d arguments" % len(a))
     ctx.check("size-gate", "collect_requests/num_bytes-is-recv-count", a[1] == count and a[0] == ("field", ("param", cfn.path, 1), "buf") and ct[2][1] == a[0],
               "nonce_from_request(&self.buf, count returned by recv_from(&mut self.buf), ..)", "nonce_from_request is called with %s" % [fmt(x) for x in a[:2]], cfn.loc(calls[0]))
 
